@@ -33,6 +33,9 @@ fn main() {
         Some("body-length") => service::body_length(),
         Some("qs-lookup") => service::qs_lookup(),
         Some("xml-text") => service::xml_text(),
+        Some("meta-headers") => service::meta_headers(),
+        Some("keep-alive") => service::keep_alive(),
+        Some("xml-payload") => service::xml_payload(),
         Some("host-config") => service::host_config(),
         Some("wire-status") => service::wire_status(&args[1..]),
         Some("wire-de") => service::wire_de(&args[1..]),
@@ -52,12 +55,14 @@ fn main() {
         Some("post-form") => sigv4::post_form(&args[1..]),
         Some("sigv4-tamper") => sigv4::tamper(),
         Some("sigv4-scope") => sigv4::scope_tamper(),
+        Some("sigv4-h2") => sigv4::h2_host(),
         Some("sigv2-tamper") => sigv4::v2_tamper(),
         Some("sigv2-append") => sigv4::v2_append(),
         Some("sigv4-search") => sigv4::search(),
         Some("window") => sigv4::window(&args[1..]),
         Some("path-search") => path::search(),
         Some("path") => path::one(&args[1..]),
+        Some("bucket-names") => path::bucket_names(),
         Some("error-table") => error::table(),
         Some("error-one") => error::one(&args[1..]),
         _ => serde_json::json!({"error": "usage: replay <range-search|range|pattern-search|pattern> …"}),
